@@ -6,7 +6,7 @@ import json, os, re, shutil, sys
 pid = sys.argv[1]
 ks = sys.argv[2:] or ["1", "2", "3"]
 for k in ks:
-    sd = f"/tmp/seed_{pid}/SEED/{k}"
+    sd = f"{os.environ.get('SEEDROOT', '/tmp/seed_')}{pid}/SEED/{k}"
     ev = open(os.path.join(sd, "eval.txt")).read()
     res = [l for l in ev.splitlines() if l.startswith("RESULT")]
     tst = [l for l in ev.splitlines() if l.startswith("TESTS")]
@@ -16,7 +16,7 @@ for k in ks:
     ok = "demo_clean=0" in line and "demo_mut=1" in line and "newly_failing=[]" in tl
     if not ok:
         print(pid, k, "NOT CONFIRMED:", line, tl); continue
-    dst = f"/verif/seeded/{pid}-{k}"
+    dst = f"/verif/seeded/{pid}-{int(k) + int(os.environ.get('SEEDOFFSET', '0'))}"
     os.makedirs(dst, exist_ok=True)
     for f in ("patch.diff", "demo.py"):
         shutil.copy(os.path.join(sd, f), os.path.join(dst, f))
